@@ -146,6 +146,19 @@ impl State {
                                 stack_len, pop, parg, ppc, pstack, want
                             ));
                         }
+                        // a block may only run off its end at exactly its length: when the last executed instruction is a
+                        // jump, either it was not taken and was the last instruction, or its target is the block's length
+                        if (20..=22).contains(&pop) {
+                            let next = ppc as i64 + 1;
+                            let target = next + parg;
+                            let fell_off_end = pop != 20 && next == f.len as i64;
+                            if target != f.len as i64 && !fell_off_end {
+                                msg = Some(format!(
+                                    "jump out of range accepted: op {} at pc {} with distance {} targets {} in a block of length {} and the block ended normally",
+                                    pop, ppc, parg, target, f.len
+                                ));
+                            }
+                        }
                     }
                 }
                 if stack_len != 1 {
